@@ -6,7 +6,7 @@ Import ListNotations.
 Local Open Scope string_scope.
 
 (** case = (fuel, bodies table indexed by call id, top-level ops) *)
-Definition run_show (c : nat * list (list bop) * list op) : string :=
+Definition run_show (c : nat * list (list cop) * list op) : string :=
   let '(fuel, table, ops) := c in
   let s := run (fun i => nth i table []) fuel init ops in
   digest ((if oof s then "FUEL " else "") ++ show_log (log s)).
